@@ -11,3 +11,13 @@ pub fn vf_reverse<T>(v: &mut Vec<T>)
 pub fn vf_ok_or<T>(o: Option<T>) -> (r: Result<T>)
     ensures o.is_some() ==> r.is_ok() && r.unwrap() == o.unwrap(), o.is_none() ==> r.is_err()
 { unimplemented!() }
+
+// Triangle inequality of the Euclidean distance (ASSUMED: inner-product-space fact, not among the axioms of
+// prelude/euclid.rs).  Used for "the portion ends within 2 tol of the point at l1".
+pub axiom fn ax_triangle(a: Point2, b: Point2, c: Point2)
+    ensures p_dist(a, c) <= p_dist(a, b) + p_dist(b, c);
+
+// Walking a segment from the other end (ASSUMED: vector-space fact a + (b-a)*f == b + (a-b)*(1-f), not among the axioms
+// of prelude/euclid.rs).  Used for "reversal maps the point at l to the point at L - l".
+pub axiom fn ax_lerp_sym(a: Point2, b: Point2, f: real)
+    ensures p_lerp(a, b, f) == p_lerp(b, a, 1real - f);
